@@ -34,7 +34,7 @@ def run(ctx, replay):
         vlib.replay_main(ctx, replay, "c17", "Trace_PluginSource")
         return {}, ASSUMPTIONS
     thorough = ctx.tier == "thorough"
-    names = '{"docker", "my.plug_in-2", "ORG", "x", "github.com", "docker-buildkite-plugin", "thing.git"}' if thorough else '{"docker", "my.plug_in-2", "github.com", "docker-buildkite-plugin", "thing.git"}'
+    names = '{"docker", "my.plug_in-2", "ORG", "x", "github.com", "docker-buildkite-plugin", "thing.git", ".", ".."}' if thorough else '{"docker", "my.plug_in-2", "github.com", "docker-buildkite-plugin", "thing.git", ".", ".."}'
     a = ctx.tlc_model("MC_PluginSource", None, cfg_text=CFG % (names, 4 if thorough else 3), label="MC_PluginSource grammar",
                       workers=8, timeout=1200)
     cases = vlib.export_cases(a)
